@@ -147,6 +147,13 @@ UNARY = {
     "determinize": (lambda m: m.determinize, "same", ["deterministic"]),
     "min_det": (lambda m: m.min_det, "same", ["deterministic", "trimmed"]),
     "min": (lambda m: m.min, "same", []),
+    # trimming the RESULT of another operation (push and trim leave explicit zero-weight initial entries behind)
+    "push.trim": (lambda m: m.push.trim, "same", ["trimmed"]),
+    "push.trim_vals": (lambda m: m.push.trim_vals, "same", ["trimmed"]),
+    "trim.trim": (lambda m: m.trim.trim, "same", ["trimmed"]),
+    "trim_vals.trim": (lambda m: m.trim_vals.trim, "same", ["trimmed"]),
+    "epsremove.trim": (lambda m: m.epsremove.trim, "same", ["trimmed", "noeps"]),
+    "reverse.trim": (lambda m: m.reverse.trim, "reverse", ["trimmed"]),
 }
 BINARY = {"add": lambda x, y: x + y, "mul": lambda x, y: x * y}
 
